@@ -258,6 +258,12 @@ func (r *Runtime) builtinJSON_stringify(call FunctionCall) Value {
 					s = s.Substring(0, 10)
 				}
 				ctx.gap = s.String()
+				for i := 0; i < len(ctx.gap); i++ {
+					if ctx.gap[i] >= utf8.RuneSelf {
+						ctx.allAscii = false
+						break
+					}
+				}
 			}
 		}
 	}
